@@ -59,8 +59,21 @@ def gen_plan(rng, index, tier):
         op = rng.choice(["convert", "convert", "restore", "restore", "addEdge", "removeEdge", "edit", "edit"])
         s = {"op": op, "u": uid}
         if op == "edit":
-            s["which"] = rng.choice(["power", "vVol", "vP0", "flux", "mgFlux"])
+            s["which"] = rng.choice(["power", "vVol", "vP0", "flux", "mgFlux", "boundary", "rotate"])
             s["idx"] = rng.randrange(1000)
+        if op == "addEdge":
+            # a solver runs while the edge assemblies are there: it recomputes a volume-integrated
+            # quantity (halves on the symmetry lines), and the halves are joined before the removal
+            s["solver"] = rng.random() < 0.4
+            if s["solver"]:
+                if rng.random() < 0.7:
+                    uid += 1
+                    steps.append({"op": "edit", "u": uid, "which": "power", "idx": rng.randrange(1000)})
+                steps.append(s)
+                if rng.random() < 0.7:
+                    uid += 1
+                    steps.append({"op": "removeEdge", "u": uid})
+                continue
         steps.append(s)
     return {"config": cfg, "steps": steps}
 
@@ -252,6 +265,21 @@ class Runner:
                     # the same array object on two parameters (what "last = current" bookkeeping does)
                     b.p.mgFlux = arr
                     b.p.lastMgFlux = arr
+            elif st["which"] == "boundary":
+                import numpy as np
+
+                # six-valued data on the corners and edges of every block
+                for j, b in enumerate(blks):
+                    b.p.cornerFastFlux = np.array([100.0 * st["u"] + 10.0 * j + i for i in range(6)])
+                    b.p.pointsEdgeFastFluxFr = np.array([0.5 * st["u"] + j + 0.1 * i for i in range(6)])
+                self.boundary_assigned = True
+            elif st["which"] == "rotate":
+                # fuel management turned an assembly earlier on
+                asms = [a for a in core if tuple(int(x) for x in a.spatialLocator.indices[:2]) != (0, 0)]
+                if not asms:
+                    return False
+                asms[st["idx"] % len(asms)].rotate(math.radians(60.0 * (1 + st["idx"] % 5)))
+                self.probe("source_assembly_rotated_beforehand")
             elif st["which"] == "flux":
                 blks[st["idx"] % len(blks)].p.flux = 1e12 + st["u"]
             else:
@@ -333,14 +361,30 @@ class Runner:
             e = gc.EdgeAssemblyChanger()
             e.addEdgeAssemblies(core)
             self.edge = e
+            added = len(core) - n0
             # somebody looks at the model while the edge assemblies are there (areas and volumes
             # are cached); what the totals are in that state is C02's subject, not this property's
             totals(core)
             core_digest(core)
             for pn in self.assigned:
                 self.edge_op_since[pn] = True
-                self.marks_cleared[pn] = True  # addEdgeAssemblies clears the "assigned since the last geometry transformation" marks
-            added = len(core) - n0
+                self.marks_cleared[pn] = True
+            self.edge_solver = False
+            if st.get("solver") and added:
+                # (the copies on the 120-degree line arrive with half the source's value; the solver
+                # writes the half on both twins)
+                for aa in core.getAssembliesOnSymmetryLine(grids.BOUNDARY_0_DEGREES):
+                    for b in aa:
+                        if b.p.vVol is not None:
+                            b.p.vVol = b.p.vVol / 2.0
+                for aa in core.getAssembliesOnSymmetryLine(grids.BOUNDARY_120_DEGREES):
+                    for b in aa:
+                        if b.p.vVol is not None:
+                            b.p.vVol = b.p.vVol * 1.0
+                self.edge_solver = True
+                if "vVol" in self.assigned:
+                    self.marks_cleared["vVol"] = False
+                self.probe("solver_ran_with_edge_assemblies")  # addEdgeAssemblies clears the "assigned since the last geometry transformation" marks
             nonc = [a for a in lower if tuple(int(x) for x in a.spatialLocator.indices[:2]) != (0, 0)]
             if added != len(nonc):
                 self.fail("C13.edge", f"step {k}: addEdgeAssemblies added {added} assemblies for {len(nonc)} assemblies on the lower symmetry line", what="count")
@@ -355,6 +399,11 @@ class Runner:
             e = self.edge or gc.EdgeAssemblyChanger()
             had = self.edge is not None
             n_before = len(core)
+            if had and getattr(self, "edge_solver", False):
+                # the halves are joined for the quantities the solver (is known to have) produced;
+                # "power" is named too, as the gamma solver's driver does, but was not recomputed
+                gc.EdgeAssemblyChanger.scaleParamsRelatedToSymmetry(core, paramsToScaleSubset=["power", "vVol"])
+                self.edge_solver = False
             e.removeEdgeAssemblies(core)
             removed_some = len(core) < n_before
             for pn in self.assigned:
@@ -416,6 +465,16 @@ class Runner:
                     y = xy[0] * math.sin(ang) + xy[1] * math.cos(ang)
                     if abs(x - g[0]) < 1e-6 and abs(y - g[1]) < 1e-6:
                         for bs, bn in zip(s_asm, a):
+                            for pn in ("cornerFastFlux", "pointsEdgeFastFluxFr"):
+                                vs, vn = bs.p[pn], bn.p[pn]
+                                if vs is None or vn is None or len(vs) != 6:
+                                    continue
+                                # what sat at direction i of the source sits at direction i + 2 kk of the copy
+                                exp_v = [float(vs[(i - 2 * kk) % 6]) for i in range(6)]
+                                if any(abs(float(x) - y) > 1e-9 * max(1.0, abs(y)) for x, y in zip(vn, exp_v)):
+                                    self.fail("C13.convert", f"step {k}: {pn} of a block of the copy of {s_asm.getName()} at {a.getLocation()} (turned by {120 * kk} degrees) is {[float(x) for x in vn]}, the source's values turned by {120 * kk} degrees are {exp_v}", what="boundary-data")
+                                    break
+                                self.probe("copies_boundary_data_checked")
                             want = (int(bs.getRotationNum()) + 2 * kk) % 6
                             if int(bn.getRotationNum()) != want:
                                 self.fail("C13.convert", f"step {k}: the copy of {s_asm.getName()} at {a.getLocation()} (its centre turned by {120 * kk} degrees) has blocks turned by {60 * ((int(bn.getRotationNum()) - int(bs.getRotationNum())) % 6)} degrees relative to the source", what="rotation")
